@@ -169,13 +169,13 @@ class Particle:
                     op_attrlist.append(op_elem)
                     op_elem['functionName'] = operator.function
                     for op_attr in operator.options.values():
-                        op_elem[op_attr.name.casefold()] = copy.deepcopy(op_attr)
+                        op_elem[op_attr.name] = copy.deepcopy(op_attr)
 
             # Initialise early to cause it to be placed above regular options.
             part_elem['children'] = Attribute.array('children', ValueType.ELEMENT)
 
             for option in part.options.values():
-                part_elem[option.name.casefold()] = copy.deepcopy(option)
+                part_elem[option.name] = copy.deepcopy(option)
 
         # Now append the children.
         for part in particles:
